@@ -687,8 +687,21 @@ func (e *H2End) ChangeInitWindow(v uint32) {
 		return
 	}
 	e.pending = append(e.pending, h2settings{initWin: int64(v), table: -1})
+	prev := e.O.InitWin
 	e.O.InitWin = v
-	_ = e.fr.WriteSettings(http2.Setting{ID: http2.SettingInitialWindowSize, Val: v})
+	if e.S.Ch.Chance("seg", "h2dupwin", 1, 4) {
+		// the same parameter twice in one frame (RFC 7540 6.5.3: processed in order, the last value stands);
+		// the first value lies between 0 and the larger of the old and the new one
+		hi := prev
+		if v > hi {
+			hi = v
+		}
+		v1 := []uint32{0, hi / 2, hi}[e.S.Ch.Pick("seg", "h2dupwinv", 3)]
+		_ = e.fr.WriteSettings(http2.Setting{ID: http2.SettingInitialWindowSize, Val: v1}, http2.Setting{ID: http2.SettingInitialWindowSize, Val: v})
+		e.S.Fault("w:h2_settings_parameter_twice")
+	} else {
+		_ = e.fr.WriteSettings(http2.Setting{ID: http2.SettingInitialWindowSize, Val: v})
+	}
 	e.flush()
 	e.WinChanges++
 	e.S.Logf("h2 %s: SETTINGS_INITIAL_WINDOW_SIZE=%d", e.Name, v)
